@@ -44,8 +44,8 @@ Emit(len, flushOk) ==
      ELSE LET w0 == IF left < req THEN 0 ELSE written
               b0 == IF left < req THEN 0 ELSE blen
               b1 == BwBlen(b0, len) IN
-          /\ written' = EmitNextW(Cap, TLen, written, blen, len, flushOk)
-          /\ blen' = EmitNextB(Cap, TLen, written, blen, len, flushOk)
+          /\ written' = EmitNextC(Cap, TLen, written, blen, len, flushOk)[1]
+          /\ blen' = EmitNextC(Cap, TLen, written, blen, len, flushOk)[2]
           /\ autoflush' = (autoflush \/ BwAuto(b0, len) \/ BwAuto(b1, TLen))
 \* io.rs:115-120
 Flush(ok) == /\ IF ok THEN written' = 0 /\ blen' = 0 ELSE UNCHANGED <<written, blen>>
